@@ -288,6 +288,8 @@ func genC01(r *rng, tier string, emit func(string)) {
 				// the same bytes through the TLS stack's handshake-signature verifier, both key representations
 				emit(fmt.Sprintf("tlssigv ecdsa %s %s %s %s", bhex(k.x), bhex(k.y), hx(msg), hx(sig)))
 				emit(fmt.Sprintf("tlssigv sm2 %s %s %s %s", bhex(k.x), bhex(k.y), hx(msg), hx(sig)))
+				// and through the X.509 verifier (certificates, requests, revocation lists), see c09sig.go
+				emit(fmt.Sprintf("x509sigv %s %s %s %s %s", []string{"SM2WithSM3", "SM2WithSM3", "SM2WithSHA1", "SM2WithSHA256"}[(i+len(sig))%4], bhex(k.x), bhex(k.y), hx(msg), hx(sig)))
 			}
 			vd(sig)
 			vd(append(append([]byte{}, sig...), 0)) // trailing byte after the SEQUENCE
@@ -298,6 +300,10 @@ func genC01(r *rng, tier string, emit func(string)) {
 			// trailing element inside the SEQUENCE (length fixed up)
 			in := append(append([]byte{}, sig[2:]...), 0x02, 0x01, 0x01)
 			vd(append([]byte{0x30, byte(len(in))}, in...))
+			for _, extra := range [][]byte{{0x05, 0x00}, {0x04, 0x03, 'p', 'a', 'd'}, {0x30, 0x00}} {
+				in := append(append([]byte{}, sig[2:]...), extra...)
+				vd(append([]byte{0x30, byte(len(in))}, in...))
+			}
 			// non-minimal length of the SEQUENCE (0x81 form)
 			if len(sig)-2 < 128 {
 				vd(append([]byte{0x30, 0x81, byte(len(sig) - 2)}, sig[2:]...))
